@@ -208,6 +208,7 @@ impl Check for C02 {
             rep.bump("probe_collection_inside_native_callback", out.counters.collections_nested.min(1) * (scn.driver == Driver::Step) as u64
                 + out.counters.collections_nested2.min(1) * (scn.driver == Driver::Eval) as u64);
             rep.bump("probe_collection_between_order_issue_and_answer", (out.forced_collects > 0 && out.orders_seen > 0) as u64);
+            rep.bump("host_held_values_reread", out.held_values_reread);
             rep.bump("suspensions", out.suspensions);
             rep.bump("orders", out.orders_seen);
             rep.bump("error_answers", out.error_answers);
@@ -225,6 +226,12 @@ impl Check for C02 {
                     &clause,
                     short,
                     json!({"schedule_index": si, "schedule": g, "diff": detail, "injected_at": crate::host::injected_indices().into_iter().take(50).collect::<Vec<_>>()}),
+                ));
+            } else if let Some(ch) = &out.held_value_changed {
+                rep.fail(Failure::new(
+                    "host_held_value_changed",
+                    ch.chars().take(200).collect::<String>(),
+                    json!({"schedule_index": si, "schedule": g, "change": ch}),
                 ));
             } else if !out.stale.is_empty() {
                 rep.fail(Failure::new(
